@@ -75,7 +75,30 @@ Theorem C14_every_requested_margin_is_there n levels D S k : concrete n D ->
   S <> [] -> NoDup S -> incl S levels -> (forall l, In l levels -> (l < n)%nat) -> In k (map fst D) ->
   In (setAllS S k) (map fst (add_row_margin agg n levels D)).
 Proof. exact (add_row_margin_complete agg n levels D S k). Qed.
+
+(* 5. cross-tabulation (core.crosstab: one grouping over row keys ++ column keys, margins on the axes asked for, unstack):
+      a cell that holds a value holds the aggregate over the rows with that row key and that column key ('All' standing
+      for any label, and only on an axis whose margin was asked for); a combination that does not occur is null; the
+      cell of a combination that occurs holds its group's value *)
+Theorem C14_crosstab_cell n0 n1 rm cm D r c v : concrete (n0 + n1) D -> NoDup (map fst D) ->
+  crosstab_cell agg n0 n1 rm cm D r c = Some v ->
+  v = total agg e (r ++ c) D /\
+  (forall i, (i < n0 + n1)%nat -> is_all (r ++ c) i = true -> In i (crosstab_levels n0 n1 rm cm)) /\
+  (exists k0, In k0 (map fst D) /\ matches (r ++ c) k0 = true).
+Proof. exact (crosstab_cell_sound agg e agg_assoc agg_comm agg_e n0 n1 rm cm D r c v). Qed.
+
+Theorem C14_crosstab_absent_combination_is_null n0 n1 rm cm D r c : concrete (n0 + n1) D -> NoDup (map fst D) ->
+  (forall k0, In k0 (map fst D) -> matches (r ++ c) k0 = false) ->
+  crosstab_cell agg n0 n1 rm cm D r c = None.
+Proof. exact (crosstab_absent_is_null agg e agg_assoc agg_comm agg_e n0 n1 rm cm D r c). Qed.
+
+Theorem C14_crosstab_ordinary_cell n0 n1 rm cm D r c v : concrete (n0 + n1) D -> NoDup (map fst D) ->
+  In (r ++ c, v) D -> crosstab_cell agg n0 n1 rm cm D r c = Some v.
+Proof. exact (crosstab_ordinary_cell agg e agg_assoc agg_comm agg_e n0 n1 rm cm D r c v). Qed.
 End MultiLevel.
+Print Assumptions C14_crosstab_cell.
+Print Assumptions C14_crosstab_absent_combination_is_null.
+Print Assumptions C14_crosstab_ordinary_cell.
 Print Assumptions C14_every_margin_row_is_the_aggregate.
 Print Assumptions C14_ordinary_rows_unchanged.
 Print Assumptions C14_every_requested_margin_is_there.
@@ -91,3 +114,9 @@ Example C14_multi_level_example :
   total Z.add 0 [None; Some 1] D = 6 /\ concrete 2 D.
 Proof. split; [|split]; [vm_compute; reflexivity | vm_compute; reflexivity |].
   intros k [<-|[<-|[<-|[]]]]; reflexivity. Qed.
+
+(* Tie B (pins): crosstab reads, statement by statement, as it did when the model was written against it *)
+From GL Require Import Gen.SourcesGen Model.Sources Proofs.PinC14.
+Theorem C14_modelled_functions_are_the_source's : gen_src_crosstab = src_crosstab.
+Proof. exact pin_crosstab. Qed.
+Print Assumptions C14_modelled_functions_are_the_source's.
